@@ -343,7 +343,9 @@ class HttpParser(abc.ABC, Generic[_MsgT]):
         data_len = len(data)
         start_pos = 0
         loop = self.loop
-        max_line_length = self.max_line_size
+        # A header block may span several calls: once the start line has been
+        # read, the field limit applies, whichever call delivers the field.
+        max_line_length = self.max_field_size if self._lines else self.max_line_size
 
         should_close = False
         while start_pos < data_len or self._payload_has_more_data:
@@ -394,6 +396,8 @@ class HttpParser(abc.ABC, Generic[_MsgT]):
                             msg: _MsgT = self.parse_message(self._lines)
                         finally:
                             self._lines.clear()
+                            # the next line is a start line again
+                            max_line_length = self.max_line_size
 
                         def get_content_length() -> int | None:
                             # payload length
@@ -521,8 +525,8 @@ class HttpParser(abc.ABC, Generic[_MsgT]):
                     # bytes get appended to this line and leak in the error.
                     if b"\n" in self._tail:
                         raise BadHttpMessage("Bad line ending, expected CRLF")
-                    if len(self._tail) > self.max_line_size:
-                        raise LineTooLong(self._tail[:100] + b"...", self.max_line_size)
+                    if len(self._tail) > max_line_length:
+                        raise LineTooLong(self._tail[:100] + b"...", max_line_length)
                     data = EMPTY
                     break
 
